@@ -52,6 +52,9 @@ template <class S> static S call(MASA::manufactured_solution<S>* o, const ApiEnt
 template <class S> static void explore(int ci, const std::string& name, const std::vector<OpH>& ops, FILE* out, const char* scal, int vector_variant) {
   std::cout.setstate(std::ios::failbit);
   auto prepare = [&](Inst<S>& I) {  // configuration under which the closure is taken (set, never evaluated)
+    // variant 2: every scalar parameter moved off its default (x 17/16, zeros -> 1/16) through set_var, never evaluated:
+    // exposes caches keyed on parameters and evaluators that "repair" derived parameters
+    if (vector_variant == 2) { for (auto& kv : I.o->varmap) { S v = *I.o->vararr[kv.second]; I.o->set_var(kv.first, v == 0 ? (S)0.0625 : v * (S)1.0625); } return; }
     if (vector_variant) for (auto& kv : I.o->vecmap) { std::vector<S> v = {(S)1, (S)2, (S)6}; if (kv.first != "vec_data") { v = *I.o->vecarr[kv.second]; for (auto& x : v) x = x * (S)1.25; } I.o->set_vec(kv.first, v); }
   };
   // reference bits in the initial state: each (evaluator, tuple) on its own fresh instance (forked child)
@@ -115,7 +118,7 @@ int main(int argc, char** argv) {
     if (pid == 0) {
       std::string wf = std::string(argv[1]) + "." + std::to_string(ci); FILE* fo = fopen(wf.c_str(), "w");
       bool has_vec = !anim[ci]->vecmap.empty();
-      for (int vv = 0; vv <= (has_vec ? 1 : 0); vv++) { explore<double>(ci, n, ops, fo, "d", vv); explore<LD>(ci, n, ops, fo, "ld", vv); }
+      for (int vv = 0; vv <= 2; vv++) { if (vv == 1 && !has_vec) continue; explore<double>(ci, n, ops, fo, "d", vv); explore<LD>(ci, n, ops, fo, "ld", vv); }
       fclose(fo); _exit(0);
     }
     running.push_back(pid);
